@@ -11,10 +11,14 @@ Loops are cut by invariants (automatic counter bounds + sidecar content invarian
 Counter-examples are replayed by running concrete scenarios through the real engine built with
 ASan + UBSan + _GLIBCXX_ASSERTIONS.
 """
-import z3
 from vc.core.runner import Case
-from vc.cppsym import contracts as K
-from vc.cppsym.interp import Frame, Vec, Vec2, Ptr, Obj, ObjPtr, Str, Undef
+try:
+    import z3
+    from vc.cppsym import contracts as K
+    from vc.cppsym.interp import Frame, Vec, Vec2, Ptr, Obj, ObjPtr, Str, Undef
+except ImportError:          # concrete runner (no z3 in the interpreter of the test suite): cases are symbolic-only
+    z3 = None
+    from vc.cppsym import names as K
 
 META = {
     "level": "proof",
@@ -221,9 +225,9 @@ API_LIVE = ["engineexport_iterate", "engineexport_iterate_n", "engineexport_run"
             "engineexport_get_trajectory", "engineexport_get_state"]
 
 
-def setup_globals(I, cls, freed):
+def setup_globals(I, cls, freed, without_grid_shape=False):
     """global state: an algorithm object of class cls was set up; `freed` tells whether it was released"""
-    o = K.valid_object(I, cls)
+    o = K.valid_object(I, cls, without_grid_shape=without_grid_shape)
     K.assume_content_invariants(I, o)
     grid = K.is_grid(cls)
     if freed:
